@@ -297,10 +297,27 @@ func zvC02PartA(r *vh.Run, ds []zvSelPD) {
 
 // zvC02KeyOf reads the reference key back from a path object returned by the
 // LocRIB (public fields only).
+var zvC02KeyCache = map[*route.Path]string{}
+
 func zvC02KeyOf(p *route.Path) string {
 	if p == nil {
 		return "nil"
 	}
+	if k, ok := zvC02KeyCache[p]; ok { // the harness's own objects: attributes never change
+		return k
+	}
+	return zvC02KeyOfSlow(p)
+}
+
+func zvC02Build(ds []zvSelPD) []*route.Path {
+	ps := zvSelBuildAll(ds)
+	for _, p := range ps {
+		zvC02KeyCache[p] = zvC02KeyOfSlow(p)
+	}
+	return ps
+}
+
+func zvC02KeyOfSlow(p *route.Path) string {
 	switch p.Type {
 	case route.StaticPathType:
 		if p.StaticPath == nil || p.StaticPath.NextHop == nil {
@@ -402,15 +419,15 @@ func zvC02Final(ds []zvSelPD, hist []zvC02Op) (final []zvSelPD, canon []zvC02Op)
 // zvC02Compare reports a violation when the history's observation differs from
 // the canonical one. ds are the candidates in canonical (domain) order.
 func zvC02Compare(r *vh.Run, ds []zvSelPD, hist []zvC02Op, ref, got zvC02Obs) {
+	if got.err == "" && (ref.err != "" || (got.best == ref.best && got.ecmp == ref.ecmp)) {
+		return // same observation (a panic of the canonical history is reported for that history itself)
+	}
 	final, canon := zvC02Final(ds, hist)
 	c := zvC02Case{Kind: "locrib", Paths: ds, Hist: hist}
 	base := []string{"history", zvC02HistKind(hist), "types", zvC02Types(final...), "steps", zvC02Steps(final...), "mixed_cluster_list_presence", fmt.Sprint(zvC02MixedCL(final...))}
 	if got.err != "" {
 		r.Violation(vh.Sig("clause", "locrib_panic", "op", got.failOp, "types", zvC02Types(ds...)), c, "LocRIB.%s panicked during history %v on candidates %v: %s", got.failOp, hist, ds, got.err)
 		return
-	}
-	if ref.err != "" {
-		return // reported for the canonical history itself
 	}
 	if got.best != ref.best {
 		r.Violation(vh.Sig(append([]string{"clause", "locrib_best_depends_on_history"}, base...)...), c,
@@ -510,9 +527,9 @@ func zvC02Coverage(st *zvC02BStats, final []zvSelPD, ref zvC02Obs) {
 
 func zvC02PartB(r *vh.Run, d3, d4 []zvSelPD) {
 	var st zvC02BStats
-	p3 := zvSelBuildAll(d3)
+	p3 := zvC02Build(d3)
 	// duplicates inside a multiset need distinct objects: second and third copy
-	p3b, p3c := zvSelBuildAll(d3), zvSelBuildAll(d3)
+	p3b, p3c := zvC02Build(d3), zvC02Build(d3)
 	idx := 0
 	n := len(d3)
 	hist3 := make([][]zvC02Op, len(zvC02Perm3))
@@ -576,7 +593,15 @@ outer3:
 	// 4 candidates, one removed
 	h4 := zvC02Hist4()
 	r.Extra("histories_per_4_multiset", len(h4))
-	p4 := [][]*route.Path{zvSelBuildAll(d4), zvSelBuildAll(d4), zvSelBuildAll(d4), zvSelBuildAll(d4)}
+	p4 := [][]*route.Path{zvC02Build(d4), zvC02Build(d4), zvC02Build(d4), zvC02Build(d4)}
+	h4x := make([]int, len(h4)) // the removed element of each history
+	for i, h := range h4 {
+		for _, o := range h {
+			if o.Op == "remove" {
+				h4x[i] = o.X
+			}
+		}
+	}
 	n4 := len(d4)
 outer4:
 	for a := 0; a < n4 && !capped; a++ {
@@ -606,17 +631,16 @@ outer4:
 							st.removeBest++
 						}
 					}
-					for _, h := range h4 {
-						x := 0
-						for _, o := range h {
-							if o.Op == "remove" {
-								x = o.X
-							}
-						}
+					var nt [4]bool
+					for x := 0; x < 4; x++ {
+						f := finals[x]
+						nt[x] = f[0].refKey() != f[1].refKey() || f[1].refKey() != f[2].refKey()
+					}
+					for hi, h := range h4 {
+						x := h4x[hi]
 						got := zvC02Run(ps, h)
 						st.hist++
-						f := finals[x]
-						if f[0].refKey() != f[1].refKey() || f[1].refKey() != f[2].refKey() {
+						if nt[x] {
 							st.nontrivial++
 						}
 						zvC02Compare(r, ds, h, refs[x], got)
@@ -653,7 +677,6 @@ func zvC02Domains(thorough bool) (d3, d4 []zvSelPD) {
 	if thorough {
 		s3.LP = []int{100, 200}
 		s3.EBGP = []bool{false, true}
-		s3.NH = []uint8{1, 2}
 		s4.Orig = []uint32{0, 1, 3}
 		s4.CL = []int{-1, 0, 1, 2}
 	} else {
@@ -665,7 +688,10 @@ func zvC02Domains(thorough bool) (d3, d4 []zvSelPD) {
 		}
 		extra4 = append(extra4, zvSelPD{LP: 100, ASLen: 1, ID: 1, CL: 0, Peer: 1, NH: 1})
 	}
-	d3 = append(s3.enumerate(), zvSelStatics...)
+	d3 = s3.enumerate()
+	// two candidates that differ from an existing one only in the next hop (same reference class)
+	d3 = append(d3, zvSelPD{LP: 100, ASLen: 1, ID: 1, CL: -1, Peer: 1, NH: 2}, zvSelPD{LP: 100, ASLen: 1, ID: 2, Orig: 3, CL: 1, Peer: 2, NH: 2})
+	d3 = append(d3, zvSelStatics...)
 	d4 = append(s4.enumerate(), extra4...)
 	// one path that is not ECMP-equal to the rest, one static path
 	d4 = append(d4, zvSelPD{LP: 100, ASLen: 1, MED: 10, ID: 1, CL: -1, Peer: 1, NH: 1}, zvSelStatics[0])
@@ -677,6 +703,7 @@ func zvC02Domains(thorough bool) (d3, d4 []zvSelPD) {
 func TestVerifC02(t *testing.T) {
 	r := vh.Start(t, "C02")
 	defer r.Finish()
+	zvSelQuiet()
 	r.Rule("(a) route.Path.Select on every ordered pair and every ordered triple of D = LOCAL_PREF{100,200} x AS_PATH len{1,2} x ORIGIN{0,1} x MED{0,10} x eBGP{f,t} x BGP-ID{1,2} x ORIGINATOR_ID{absent,1,3} " +
 		"x CLUSTER_LIST{absent,empty,1,2 entries} x peer{.1,.2} x next hop{.1,.2} (3072 BGP paths) + 2 static paths: antisymmetry, transitivity, ties only inside one reference class; " +
 		"(b) real LocRIB: every multiset of 2 and 3 candidates of the tie-prone sub-domain x every insertion order, every multiset of 4 candidates of the smaller sub-domain x every history " +
